@@ -171,8 +171,9 @@ def classes():
 CLSNAME = {"TF": "FermionOperator", "OFF": "openfermion.FermionOperator", "TQ": "QubitOperator",
            "OFQ": "openfermion.QubitOperator", "QH": "QubitHamiltonian"}
 TANGELO = ("TF", "TQ", "QH")
-SCALARS = {"S2": lambda: 2, "S0.5": lambda: 0.5, "S1j": lambda: 1j, "Sf64": lambda: np.float64(3)}
-SCALAR_SRC = {"S2": "2", "S0.5": "0.5", "S1j": "1j", "Sf64": "numpy.float64(3)"}
+SCALARS = {"S2": lambda: 2, "S0.5": lambda: 0.5, "S1j": lambda: 1j, "Sf64": lambda: np.float64(3),
+           "S0": lambda: 0, "S1": lambda: 1}        # 0 and 1: identity elements (sum() starts from 0), natural shortcut sites
+SCALAR_SRC = {"S2": "2", "S0.5": "0.5", "S1j": "1j", "Sf64": "numpy.float64(3)", "S0": "0", "S1": "1"}
 
 
 def F(*ops):
@@ -207,7 +208,7 @@ def pool_spec(fam, which, seed):
             ("QHjwT", "QH", ("JW", True), [(word_to_term("XY"), 1.5), (word_to_term("ZI"), 1j)]),   # = QHjw up to ordering flag
         ]
         ops = full if which == "full" else full[:4]
-    scal = list(SCALARS) if which == "full" else ["S2", "S1j"]
+    scal = list(SCALARS) if which == "full" else ["S2", "S1j", "S0"]
     return ops, scal
 
 
@@ -365,7 +366,7 @@ def must_succeed(opn, tx, ax, ty, ay):
     sub_on_right = (tx == "OFQ" and ty in ("TQ", "QH")) or (tx == "TQ" and ty == "QH")
     if sub_on_right:
         return True
-    if tx == "QH" and ty == "TQ" and fully_annotated(ax) and opn in ("add", "iadd"):
+    if tx == "QH" and ty in ("TQ", "OFQ") and opn in ("add", "iadd"):
         return True                                 # "This check is ignored if comparing to a QubitOperator"
     return False
 
@@ -874,7 +875,21 @@ def check_collapse(case, acc):
 def check_commute(case, acc):
     from tangelo.toolboxes.operators.multiformoperator import do_commute
     n = case["n"]
-    a, b = mk_mf(case["a"], n), mk_mf(case["b"], n)
+    if case.get("prep") == "resize":
+        # history: the first operand was created wider and brought to the common width by compress(n_qubits=n)
+        # (and the second one narrower-then-wider): the array attributes must follow the new width
+        try:
+            a = mk_mf(case["a"], n + 1)
+            a.compress(n_qubits=n)
+            b = mk_mf(case["b"], n)
+            b.compress(n_qubits=n + 2)
+            b.compress(n_qubits=n)
+        except Exception as e:
+            mf_fail(acc, case, f"MultiformOperator.compress/raises-{type(e).__name__}", shape_sig(case), {"exception": repr(e)[:300]})
+            e.__traceback__ = None
+            return
+    else:
+        a, b = mk_mf(case["a"], n), mk_mf(case["b"], n)
     sa, sb = mf_snap(a), mf_snap(b)
     ra, rb = ref_of_desc(case["a"]), ref_of_desc(case["b"])
     pair = [[word_commute(wa, wb) for wb, _ in case["b"]] for wa, _ in case["a"]]
@@ -941,7 +956,7 @@ def shards(tier, seed):
         sh.append({"kind": "mf_mul", "A": ["t6"], "B": ["t6"], "part": [p, 8], "seed": seed})
         sh.append({"kind": "mf_commute", "A": ["t6", "s6"], "B": ["t6", "s6"], "part": [p, 8], "seed": seed})
     for p in range(8):
-        sh.append({"kind": "mf_commute", "A": ["t2all", "s2"], "B": ["t2all", "s2"], "part": [p, 8], "seed": seed})
+        sh.append({"kind": "mf_commute", "A": ["t2all", "s2"], "B": ["t2all", "s2"], "part": [p, 8], "seed": seed, "resize": True})
     sh.append({"kind": "mf_encode", "A": ["w2", "w3", "t6", "t2all"], "seed": seed})
     maxrows = 3 if tier == "quick" else 4
     sh.append({"kind": "mf_collapse", "ncols": 1, "nrows": list(range(1, 5)), "first": None, "seed": seed})
@@ -986,6 +1001,9 @@ def run_shard(sh):
             acc.transitions += 1
             case = {"kind": kind, "n": n, "a": da, "b": db}
             MF_CHECK[kind](case, acc)
+            if kind == "mf_commute" and sh.get("resize"):
+                acc.transitions += 3
+                MF_CHECK[kind](dict(case, prep="resize"), acc)
             if ia == p and len(acc.samples) < 1:
                 acc.sample(case, cap=1)
     return acc
